@@ -26,6 +26,10 @@ def handle (st : St) (line : String) : St × String :=
       let (s', r) := Emu.Bt.step st.bt op
       ({ st with bt := s' }, showResp r)
     | none => (st, "bad-op")
+  | ["gcs", "plant", b, n, c] =>
+    match Bytes.ofHex b, Bytes.ofHex n, Bytes.ofHex c with
+    | some b, some n, some c => ({ st with gcs := plant st.gcs b n c }, "planted")
+    | _, _, _ => (st, "bad-op")
   | "gcs" :: rest =>
     match (do let op ← pGcsOp st.gcs; atEnd; pure op : P Emu.Gcs.Op).run rest with
     | some (op, _) =>
